@@ -1,0 +1,84 @@
+//go:build verif
+
+package goja
+
+// Contracts for the VM's exception plumbing (C14 identity across the boundary, C15 uncatchable
+// interrupts, C03/C08 unwinding).
+
+// An exception's value never changes after it is created.
+//@ stable Exception.val
+
+// Classification of a panic payload: JS values keep their identity, *Exception passes through,
+// everything that is not a JS-visible error (interrupts, stack overflow, foreign panics) yields nil.
+//@ func (*vm).exceptionFromValue
+//@   props C14 C15
+//@   requires vm != nil && vm.r != nil
+//@   ensures specThrownKind(x) == 1 ==> result != nil && same(result.val, specThrownValue(x)) [js-value-identity]
+//@   ensures specThrownKind(x) == 2 ==> result == specThrownException(x) [exception-passes-through]
+//@   ensures specThrownKind(x) == 3 ==> result != nil [internal-error-becomes-exception]
+//@   ensures specThrownKind(x) == 0 ==> result == nil [uncatchable-yields-nil]
+
+// ---- operand stack
+
+//@ func (*valueStack).expand
+//@   props C03
+//@   requires s != nil && idx >= 0
+//@   ensures len(*s) > idx && len(*s) >= old(len(*s)) [long-enough]
+//@   ensures samearray(*s, old(*s)) && sliceoff(*s, old(*s)) == 0 || newarray(*s) [same-or-fresh-array]
+//@   ensures forall k int :: 0 <= k && k < old(len(*s)) ==> same((*s)[k], old((*s)[k])) [contents-kept]
+//@   assigns *s, elems(*s)
+
+//@ func (*vm).push
+//@   props C03
+//@   requires vm != nil && vm.sp >= 0
+//@   ensures vm.sp == old(vm.sp)+1 && same(vm.stack[vm.sp-1], v) [pushed]
+//@   ensures forall k int :: 0 <= k && k < old(vm.sp) && k < old(len(vm.stack)) ==> same(vm.stack[k], old(vm.stack[k])) [below-kept]
+//@   assigns vm.sp, vm.stack, elems(vm.stack)
+
+// ---- try frames
+
+//@ func (*vm).pushTryFrame
+//@   props C03 C08
+//@   requires vm != nil && len(vm.callStack) <= math.MaxInt32 && len(vm.iterStack) <= math.MaxInt32 && len(vm.refStack) <= math.MaxInt32 && vm.sp >= 0 && vm.sp <= math.MaxInt32
+//@   ensures len(vm.tryStack) == old(len(vm.tryStack))+1 [one-more]
+//@   ensures vm.tryStack[len(vm.tryStack)-1].sp == int32(vm.sp) && vm.tryStack[len(vm.tryStack)-1].stash == vm.stash && vm.tryStack[len(vm.tryStack)-1].privEnv == vm.privEnv [snapshot-registers]
+//@   ensures int(vm.tryStack[len(vm.tryStack)-1].callStackLen) == len(vm.callStack) && int(vm.tryStack[len(vm.tryStack)-1].iterLen) == len(vm.iterStack) && int(vm.tryStack[len(vm.tryStack)-1].refLen) == len(vm.refStack) [snapshot-stack-heights]
+//@   ensures vm.tryStack[len(vm.tryStack)-1].catchPos == catchPos && vm.tryStack[len(vm.tryStack)-1].finallyPos == finallyPos && vm.tryStack[len(vm.tryStack)-1].finallyRet == -1 && vm.tryStack[len(vm.tryStack)-1].exception == nil [handlers]
+
+//@ func (*vm).popTryFrame
+//@   props C03 C08
+//@   requires vm != nil && len(vm.tryStack) > 0
+//@   ensures len(vm.tryStack) == old(len(vm.tryStack))-1 && samearray(vm.tryStack, old(vm.tryStack)) && sliceoff(vm.tryStack, old(vm.tryStack)) == 0 [one-less]
+//@   assigns vm.tryStack
+
+// ---- unwinding
+
+// Assumed (the induction hypothesis of C03 for nested execution): script run from inside the VM
+// (iterator return() in restoreStacks, callbacks) leaves the registers and the existing try frames
+// of the interrupted activation as it found them.
+//@ jspreserved vm.stash vm.privEnv vm.tryStack vm.callStack
+//@ jspreserved tryFrame.exception tryFrame.callStackLen tryFrame.iterLen tryFrame.refLen tryFrame.sp tryFrame.stash tryFrame.privEnv tryFrame.catchPos tryFrame.finallyPos tryFrame.finallyRet
+
+// Assumed contract of restoreStacks (closes iterators through vm.try: closure-based, not verified):
+//@ func (*vm).restoreStacks
+//@   props C03 C08
+//@   trusted
+//@   ensures len(vm.iterStack) == int(iterLen) && len(vm.refStack) == int(refLen) [heights]
+
+// handleThrow: only JS-visible errors are ever delivered to a catch or finally; everything else
+// is re-panicked unchanged; a handler is entered at most once (latch) and sees the thrown value
+// with the registers of the frame that caught it.
+//@ func (*vm).handleThrow
+//@   props C03 C08 C14 C15
+//@   requires vm != nil && vm.r != nil && vm.sp >= 0
+//@   requires forall k int :: 0 <= k && k < len(vm.tryStack) ==> vm.tryStack[k].sp >= 0 [frames-wf]
+//@   loop 1 vars ex *Exception
+//@   loop 1 invariant forall k int :: 0 <= k && k < len(vm.tryStack) ==> vm.tryStack[k].sp >= 0 [frames-wf]
+//@   loop 1 invariant (specThrownKind(arg) == 0 ==> ex == nil) && (specThrownKind(arg) == 1 ==> ex != nil && same(ex.val, specThrownValue(arg))) && (specThrownKind(arg) == 2 ==> ex == specThrownException(arg)) [ex-classified]
+//@   exitvars ex *Exception, tf *tryFrame
+//@   ensures specThrownKind(arg) != 0 [only-js-errors-are-delivered]
+//@   ensures result != nil ==> result == ex [unhandled-is-returned]
+//@   ensures result == nil ==> ex != nil && tf != nil && tf.catchPos < 0 && (tf.finallyPos < 0 || same(vm.stack[vm.sp-1], ex.val)) [handler-latched]
+//@   ensures result == nil ==> vm.stash == tf.stash && vm.privEnv == tf.privEnv && int(tf.callStackLen) >= len(vm.callStack) && len(vm.iterStack) == int(tf.iterLen) && len(vm.refStack) == int(tf.refLen) [registers-of-catching-frame]
+//@   ensures result == nil ==> vm.sp == int(tf.sp) || vm.sp == int(tf.sp)+1 && same(vm.stack[vm.sp-1], ex.val) [stack-height-restored]
+//@   ensures_panic same(panicValue, arg) && specThrownKind(arg) != 1 [rethrows-same-value]
